@@ -21,7 +21,7 @@ func init() { register("C12", ruleC12_3) }
 // function - results and branch conditions alike - must have degree 0 or 1.
 func ruleC12_3(c *Ctx) {
 	R := c.R
-	R.Rule("C12.3", "magnitude discipline (float32 range): in AspectMeet, AspectSlice and Size every intermediate value is a length (degree 1) or a ratio (degree 0) - never a product of lengths or the reciprocal of one, which overflow or underflow long before the inputs do; sums and comparisons combine equal degrees", 3)
+	R.Rule("C12.3", "magnitude discipline (float32 range): in AspectMeet, AspectSlice and Size every intermediate value is a length (degree 1) or a ratio (degree 0) - never a product of lengths or the reciprocal of one, which overflow or underflow long before the inputs do; sums and comparisons combine equal degrees; the fitting functions use viewBox coordinates only through the size differences (no cancellation of the viewBox position)", 5)
 	for _, mode := range []string{"Size", "AspectMeet", "AspectSlice"} {
 		fn := c.Method("", "ViewBox", mode, false)
 		if fn == nil {
@@ -136,5 +136,42 @@ func ruleC12_3(c *Ctx) {
 		}
 		deg(res)
 		R.Check(len(bad) == 0, "ivg.(ViewBox)."+mode+"#degrees", c.FPos(fn), "every intermediate has degree 0 or 1", strings.Join(bad, " ; "))
+		// position independence: the placement of a viewBox does not depend on where the viewBox lies, only on its
+		// size. A formula in which a viewBox coordinate occurs outside the differences MaxX-MinX / MaxY-MinY can be
+		// position independent only by cancellation, which costs float32 precision in proportion to the distance of
+		// the viewBox from the origin (the property asks for rounding relative to the target size).
+		var stray []string
+		var scan func(t *sym.Term, parent *sym.Term)
+		seenT := map[string]bool{}
+		scan = func(t *sym.Term, parent *sym.Term) {
+			if t == nil {
+				return
+			}
+			if t.Op == "field" && len(t.Args) == 1 && t.Args[0].Key() == "$param:v" {
+				okDiff := false
+				if parent != nil && parent.Op == "bin" && parent.Name == "-" && len(parent.Args) == 2 {
+					a, b := parent.Args[0], parent.Args[1]
+					if a.Op == "field" && b.Op == "field" && a.Args[0].Key() == "$param:v" && b.Args[0].Key() == "$param:v" {
+						// MaxX - MinX (fields 2,0) or MaxY - MinY (fields 3,1)
+						okDiff = (a.Name == "2" && b.Name == "0") || (a.Name == "3" && b.Name == "1")
+					}
+				}
+				if !okDiff {
+					k := "coordinate " + t.Name + " of the viewBox is used outside a size difference"
+					if !seenT[k] {
+						seenT[k] = true
+						stray = append(stray, k)
+					}
+				}
+				return
+			}
+			for _, a := range t.Args {
+				scan(a, t)
+			}
+		}
+		if mode != "Size" {
+			scan(res, nil)
+			R.Check(len(stray) == 0, "ivg.(ViewBox)."+mode+"#position-independent", c.FPos(fn), "viewBox coordinates enter only through MaxX-MinX and MaxY-MinY", strings.Join(stray, "; "))
+		}
 	}
 }
